@@ -66,6 +66,12 @@ def units(tier, seed):
         add("nogroups", k, "all", 1 if k < 4 else (2 if k == 4 else 16))
     for k in range(1, 4 if q else 5):
         add("inline", k, "all", 1 if k < 4 else 4)
+    # deeper trees over the alphabet with a non-generatable type, ?,*,+ only (dead ends behind accepting states
+    # need >= 6 syntax nodes, e.g. "a (a r)?")
+    for k in range(5, (7 if q else 8) + 1):
+        add("required", k, "basic", {5: 2, 6: 8, 7: 16, 8: 64}[k])
+    if not q:
+        add("required", 6, "all", 128)
     if not q:
         for k in (7,):
             add("nogroups", k, "basic", 64)
